@@ -21,13 +21,17 @@ func split(ctx context.Context, r io.Reader) (<-chan string, <-chan error) {
 		}()
 
 		block := ""
+		sharpRoot := false // once a heading row has been read, only heading rows are roots
 		for sc.Scan() {
 			select {
 			case <-ctx.Done():
 				return
 			default:
 				l := sc.Text()
-				if isRootBlockBeginning(l) {
+				if isSharpRootRow(l) {
+					sharpRoot = true
+				}
+				if isRootBlockBeginning(l, sharpRoot) {
 					if len(block) != 0 {
 						select {
 						case <-ctx.Done():
@@ -55,9 +59,16 @@ func split(ctx context.Context, r io.Reader) (<-chan string, <-chan error) {
 	return blockc, errc
 }
 
-func isRootBlockBeginning(l string) bool {
+func isRootBlockBeginning(l string, sharpRoot bool) bool {
 	if len(l) == 0 {
 		return false
 	}
+	if sharpRoot {
+		return isSharpRootRow(l)
+	}
 	return md.IsSymbol(l[0:1])
+}
+
+func isSharpRootRow(l string) bool {
+	return len(l) != 0 && l[0:1] == "#"
 }
